@@ -12,6 +12,7 @@ import (
 	"github.com/prometheus/prometheus/model/labels"
 
 	"github.com/prometheus/prometheus/tsdb"
+	"github.com/prometheus/prometheus/tsdb/chunkenc"
 	"github.com/prometheus/prometheus/tsdb/index"
 
 	"verif/sim/core/simfs"
@@ -482,4 +483,165 @@ func (e *exec) subsetModuloCandidates(a, b qresult) string {
 		}
 	}
 	return ""
+}
+
+// ---- C07: compaction preserves the union of its inputs ----
+
+// blockContentStats walks every chunk of a block directory and returns what the statistics in its meta must say.
+func blockContentStats(dir string) (series, chunksN, samples, floats, hists uint64, err error) {
+	defer func() {
+		if r := recover(); r != nil {
+			err = fmt.Errorf("panic while reading the block: %v", r)
+		}
+	}()
+	b, err := tsdb.OpenBlock(nil, dir, nil, nil)
+	if err != nil {
+		return 0, 0, 0, 0, 0, err
+	}
+	defer b.Close()
+	q, err := tsdb.NewBlockChunkQuerier(b, math.MinInt64, math.MaxInt64)
+	if err != nil {
+		return 0, 0, 0, 0, 0, err
+	}
+	defer q.Close()
+	ss := q.Select(context.Background(), true, nil, labels.MustNewMatcher(labels.MatchRegexp, "__name__", ".*"))
+	for ss.Next() {
+		series++
+		it := ss.At().Iterator(nil)
+		for it.Next() {
+			chunksN++
+			ci := it.At().Chunk.Iterator(nil)
+			for vt := ci.Next(); vt != chunkenc.ValNone; vt = ci.Next() {
+				samples++
+				if vt == chunkenc.ValFloat {
+					floats++
+				} else {
+					hists++
+				}
+			}
+			if ci.Err() != nil {
+				return 0, 0, 0, 0, 0, ci.Err()
+			}
+		}
+		if it.Err() != nil {
+			return 0, 0, 0, 0, 0, it.Err()
+		}
+	}
+	return series, chunksN, samples, floats, hists, ss.Err()
+}
+
+// compactionCheck is the C07 oracle, run from the tagged compact.end event, i.e. after the compactor has written the
+// new block and before its sources are deleted.
+func (e *exec) compactionCheck(ev compactEvent) {
+	var zero [16]byte
+	if ev.err != nil || ev.meta.ULID == zero {
+		return
+	}
+	where := fmt.Sprintf("compaction (%s) during op %d -> block %s [%d,%d)", ev.kind, e.opIdx, ev.meta.ULID, ev.meta.MinTime, ev.meta.MaxTime)
+	dir := filepath.Join(ev.dest, ev.meta.ULID.String())
+	if _, err := os.Stat(dir); err != nil {
+		return // nothing written (empty result)
+	}
+	e.res.Evals++
+	outS, _, err := readBlock(dir) // also checks chunk order, overlap and chunk metas against contents
+	if err != nil {
+		e.fail("compaction-output", "output-block-unreadable", "%s: the written block cannot be read back: %v", where, err)
+		return
+	}
+	ns, nc, nsm, nf, nh, err := blockContentStats(dir)
+	if err != nil {
+		e.fail("compaction-output", "output-block-unreadable", "%s: %v", where, err)
+		return
+	}
+	st := ev.meta.Stats
+	if st.NumSeries != ns || st.NumChunks != nc || st.NumSamples != nsm || st.NumFloatSamples != nf || st.NumHistogramSamples != nh {
+		e.fail("compaction-stats", "block-stats-differ-from-contents", "%s: meta says series=%d chunks=%d samples=%d (float %d, histogram %d), the block holds series=%d chunks=%d samples=%d (float %d, histogram %d)",
+			where, st.NumSeries, st.NumChunks, st.NumSamples, st.NumFloatSamples, st.NumHistogramSamples, ns, nc, nsm, nf, nh)
+		return
+	}
+	for k, v := range outS {
+		for _, s := range v {
+			if s.T < ev.meta.MinTime || s.T >= ev.meta.MaxTime {
+				e.fail("compaction-output", "sample-outside-block-range", "%s: series %s holds %s outside the block's range", where, k, s)
+				return
+			}
+		}
+	}
+	e.res.Count("compaction_outputs_checked", 1)
+	if ev.kind != "compact" {
+		return // a head range written to a block: its content is judged against the model by the query oracle
+	}
+	// union of the sources, deletions applied, within the output range
+	union := map[string]map[int64][]tsdbmodel.Sample{}
+	nsrc := 0
+	for _, p := range ev.meta.Compaction.Parents {
+		pd := filepath.Join(ev.dest, p.ULID.String())
+		if _, err := os.Stat(pd); err != nil {
+			continue
+		}
+		ps, _, err := readBlock(pd)
+		if err != nil {
+			e.fail("compaction-output", "source-block-unreadable", "%s: source %s cannot be read: %v", where, p.ULID, err)
+			return
+		}
+		nsrc++
+		for k, v := range ps {
+			for _, s := range v {
+				if s.T < ev.meta.MinTime || s.T >= ev.meta.MaxTime {
+					continue
+				}
+				if union[k] == nil {
+					union[k] = map[int64][]tsdbmodel.Sample{}
+				}
+				union[k][s.T] = append(union[k][s.T], s)
+			}
+		}
+	}
+	if nsrc < 2 && len(ev.meta.Compaction.Parents) >= 2 {
+		return
+	}
+	keys := map[string]bool{}
+	for k := range union {
+		keys[k] = true
+	}
+	for k := range outS {
+		keys[k] = true
+	}
+	var ks []string
+	for k := range keys {
+		ks = append(ks, k)
+	}
+	sort.Strings(ks)
+	for _, k := range ks {
+		have := map[int64]tsdbmodel.Sample{}
+		for _, s := range outS[k] {
+			have[s.T] = s
+		}
+		for _, t := range tsdbmodel.SortedTimes(union[k]) {
+			h, ok := have[t]
+			if !ok {
+				e.fail("compaction-union", "output-lacks-input-sample", "%s: series %s: the sources hold %v at t=%d, the output holds nothing there", where, k, union[k][t], t)
+				return
+			}
+			match := false
+			for _, c := range union[k][t] {
+				if tsdbmodel.ValueEqual(c, h) {
+					match = true
+				}
+			}
+			if !match {
+				e.fail("compaction-union", "output-value-not-from-inputs", "%s: series %s t=%d: output %s, sources %v", where, k, t, h, union[k][t])
+				return
+			}
+			delete(have, t)
+		}
+		for t, s := range have {
+			e.fail("compaction-union", "output-holds-sample-not-in-inputs", "%s: series %s: output holds %s (t=%d), no source does (deleted samples must stay deleted)", where, k, s, t)
+			return
+		}
+	}
+	e.res.Count("compaction_unions_checked", 1)
+	if nsrc >= 2 {
+		e.res.Count("compaction_unions_multi_source", 1)
+	}
 }
